@@ -25,6 +25,16 @@ CHECKS = {
          "Trusted: the reference automata in mc/props/c10.py (DESIGN.md Appendix A). Argument values are fixed representatives; "
          "histories longer than the bound are covered only with <=2 forbidden calls up to depth 8.",
          "DESIGN.md 3/C10 and Appendix A"),
+ "C15": ("model_checking",
+         "stateless exploration of all receiver event histories up to a depth bound on real HPKE contexts, in lock-step with a pure-Python RFC 9180 reference",
+         "For all 60 KEM x AEAD x mode suites a real sender seals a message sequence; the RFC 9180 reference receiver (derived from skR and enc "
+         "only) must reproduce key, nonces and every ciphertext. Then every history of receiver events (in-order, replayed, skipped, bit-flipped, "
+         "wrong AAD, truncated, foreign, too short) up to depth 3/4 is offered to fresh real receiver contexts and compared event by event with the "
+         "reference ContextR whose sequence number advances only on success; set-up refusals and sequence exhaustion (sequence positioned at "
+         "2^96-3..2^96-1) are enumerated too. Complete within the bound; the unit tests only run in-order round trips.",
+         "Trusted: mc/ref/hpke.py, mc/ref/ec.py, mc/ref/modes.py (self-tested against RFC 9180/7748/8439 vectors at setup). Values are fixed "
+         "representatives; exhaustion uses the _sequence attribute as a white-box seam.",
+         "DESIGN.md 3/C15"),
 }
 NOT_YET = "check not built yet (work in progress in this session; see DESIGN.md section 3 for the planned bounded-exhaustive check)"
 man = {
